@@ -91,7 +91,11 @@ func errShape(c *core.Ctx, cs srcCase, errs []*errors.Error, atLex []int, lexTot
 		if strings.HasPrefix(e.Msg, "syntax error: unexpected") {
 			if spans == nil {
 				spans = map[[2]int]bool{}
-				_, toks, ok := lexm.Scan(src, parseVer(cs.Ver))
+				sv := parseVer(cs.Ver)
+				if sv == nil {
+					sv = drive.V74 // an omitted version means 7.4
+				}
+				_, toks, ok := lexm.Scan(src, sv)
 				if ok {
 					for _, t := range toks {
 						if t.Position != nil {
@@ -287,6 +291,12 @@ func c06Run(c *core.Ctx) {
 					cs := mkCase(src, f.V, why+": unbalanced token string")
 					cs.Aux = "invalid"
 					c06One(c, cs)
+					if fam == "php7" {
+						// the same with the version left out of the configuration (it means 7.4): the callback must still be served
+						cs = mkCase(src, nil, why+": unbalanced token string, version omitted")
+						cs.Aux = "invalid"
+						c06One(c, cs)
+					}
 				})
 			}
 		}
@@ -302,6 +312,10 @@ func c06Run(c *core.Ctx) {
 				cs.Aux, cs.Why = "invalid", "corpus sentence rejected by the reference driver"
 			}
 			c06One(c, cs)
+			if fam == "php7" {
+				cs.Ver, cs.Why = "nil", cs.Why+", version omitted"
+				c06One(c, cs)
+			}
 		}
 	}
 	for _, src := range c01Semantic {
